@@ -995,8 +995,17 @@ impl FutWait {
 
 impl Wait for FutWait {
     #[cold]
-    fn wait(&self, _seq: usize, _w_pos: &AtomicUsize, _wc: &AtomicUsize) {
-        panic!("Somehow normal wait got called in futures queue");
+    fn wait(&self, seq: usize, w_pos: &AtomicUsize, wc: &AtomicUsize) {
+        // Reached from the blocking recv methods of the futures receivers, which run
+        // outside a task and so have nothing to park: spin, then yield until ready
+        for _ in 0..self.spins_first {
+            if check(seq, w_pos, wc) {
+                return;
+            }
+        }
+        while !check(seq, w_pos, wc) {
+            yield_now();
+        }
     }
 
     fn notify(&self) {
